@@ -266,7 +266,7 @@ pub const EDIT_KINDS: [&str; 15] = [
     "add-record", "remove-record", "rename-record", "add-link", "remove-link", "change-replacement-dangling-to-dangling",
 ];
 
-fn apply_edit(f: &mut Facts, kind: usize, p: [u16; 3], name: &str) -> Option<&'static str> {
+pub fn apply_edit(f: &mut Facts, kind: usize, p: [u16; 3], name: &str) -> Option<&'static str> {
     let m = Model::new(f);
     let n = f.terms.len();
     let dangling = |x: u16| -> u32 {
